@@ -1,5 +1,157 @@
-(* C16 -- value conversion helpers are range-exact and mutually inverse (work in progress). *)
-From PyRTL Require Import Base.PyZ Conv.ConvBase Gen.Conv Conv.Str.
+(* C16 -- Value conversion helpers are range-exact and mutually inverse.
+   Only statements + `exact`; proofs live in Conv/ConvProofs.v and Conv/StrProofs.v.
+   convert_int / convert_bool / verilog_tail / val_to_signed_integer / twos_comp_repr /
+   rev_twos_comp_repr / const_postchecks are Gen/Conv.v, regenerated from pyrtl's source on every
+   run; infer / verilog_parse / formatted_* / bitpattern_* are the hand models of Conv/Str.v. *)
+From PyRTL Require Import Base.PyZ Conv.ConvBase Gen.Conv Conv.Spec Conv.Str Conv.ConvProofs Conv.StrProofs.
 
-Example C16_example_infer : convert_int (-3) None true = Ok (5, 3).
+(* --- infer_val_and_bitwidth on integers: accepts exactly the representable triples --- *)
+Theorem C16_int_accepts_iff_representable : forall v w signed,
+  (exists r, infer (RInt v) (Some w) signed = Ok r) <-> representable v w signed.
+Proof. exact int_accepts_iff_representable. Qed.
+Print Assumptions C16_int_accepts_iff_representable.
+
+(* ... and returns the two's-complement encoding v mod 2^w at the given width *)
+Theorem C16_int_encoding : forall v w signed n w',
+  infer (RInt v) (Some w) signed = Ok (n, w') -> w' = w /\ n = v mod 2 ^ w.
+Proof. exact int_encoding. Qed.
+Print Assumptions C16_int_encoding.
+
+(* no bitwidth given: accepted (non-negative, or signed), and the width is the minimal one *)
+Theorem C16_int_minimal_bitwidth : forall v signed, 0 <= v \/ signed = true ->
+  exists w, infer (RInt v) None signed = Ok (v mod 2 ^ w, w) /\
+            representable v w signed /\ forall w', representable v w' signed -> w <= w'.
+Proof. exact int_minimal_bitwidth. Qed.
+Print Assumptions C16_int_minimal_bitwidth.
+
+Theorem C16_int_negative_needs_width_or_signed : forall v, v < 0 ->
+  infer (RInt v) None false = Err 2.
+Proof. exact int_negative_needs_width_or_signed. Qed.
+Print Assumptions C16_int_negative_needs_width_or_signed.
+
+(* --- booleans: never signed, width 1 only --- *)
+Theorem C16_bool_rules : forall b w signed,
+  infer (RBool b) w signed =
+  if signed then Err 1
+  else match w with
+       | None => Ok (b2z b, 1)
+       | Some w' => if w' =? 1 then Ok (b2z b, 1) else Err 2
+       end.
+Proof. exact convert_bool_rules. Qed.
+Print Assumptions C16_bool_rules.
+
+(* --- Const: the internal range post-checks never fire --- *)
+Theorem C16_const_postchecks_never_fire_int : forall v w signed n w',
+  infer (RInt v) w signed = Ok (n, w') -> const_postchecks n w' = None.
+Proof. exact const_int_postchecks_never_fire. Qed.
+Print Assumptions C16_const_postchecks_never_fire_int.
+
+Theorem C16_const_postchecks_never_fire_bool : forall b w signed n w',
+  infer (RBool b) w signed = Ok (n, w') -> const_postchecks n w' = None.
+Proof. exact const_bool_postchecks_never_fire. Qed.
+Print Assumptions C16_const_postchecks_never_fire_bool.
+
+Theorem C16_const_postchecks_never_fire_str : forall s w signed n w',
+  infer (RStr s) w signed = Ok (n, w') -> 0 <= w' -> const_postchecks n w' = None.
+Proof. exact const_str_postchecks_never_fire. Qed.
+Print Assumptions C16_const_postchecks_never_fire_str.
+
+(* --- Verilog-style strings agree with the integer path ---
+   Full statement (no side conditions besides a successful parse of a non-negative number): *)
+Definition C16_verilog_str_agrees_full_statement : Prop :=
+  forall s neg num w passed,
+    verilog_parse s = Ok (neg, w, num) -> 0 <= num ->
+    res_opt (infer (RStr s) passed false)
+    = match passed with
+      | Some p => if p =? w then res_opt (infer (RInt (if neg then - num else num)) (Some w) false) else None
+      | None => res_opt (infer (RInt (if neg then - num else num)) (Some w) false)
+      end.
+
+(* It is FALSE of the code in three places (each is reported by the search as a spec violation): *)
+(* F13: "-4'd8" is rejected although Const(-8, bitwidth=4) is accepted *)
+Theorem C16_verilog_str_most_negative_refuted :
+  exists s neg num w,
+    verilog_parse s = Ok (neg, w, num) /\ 0 <= num /\ 1 <= w /\
+    infer (RStr s) None false = Err 5 /\
+    infer (RInt (if neg then - num else num)) (Some w) false = Ok (8, 4).
+Proof. exists [45; 52; 39; 100; 56], true, 8, 4. vm_compute. repeat split; intro; discriminate. Qed.
+Print Assumptions C16_verilog_str_most_negative_refuted.
+
+(* "0'd0" is accepted with bitwidth 0 although (0, bitwidth=0) is rejected *)
+Theorem C16_verilog_str_zero_width_refuted :
+  infer (RStr [48; 39; 100; 48]) None false = Ok (0, 0) /\ infer (RInt 0) (Some 0) false = Err 1.
+Proof. vm_compute. split; reflexivity. Qed.
+Print Assumptions C16_verilog_str_zero_width_refuted.
+
+(* bitwidth=0 passed along with "4'd3" is ignored instead of being rejected *)
+Theorem C16_verilog_str_bitwidth_param_zero_refuted :
+  infer (RStr [52; 39; 100; 51]) (Some 0) false = Ok (3, 4).
 Proof. vm_compute. reflexivity. Qed.
+Print Assumptions C16_verilog_str_bitwidth_param_zero_refuted.
+
+(* Outside exactly those inputs the agreement holds for every string, width and value: *)
+Theorem C16_verilog_str_agrees_partial : forall s neg num w passed,
+  verilog_parse s = Ok (neg, w, num) -> 0 <= num -> 1 <= w ->
+  passed = None \/ passed = Some w ->
+  ~ (neg = true /\ num = 2 ^ (w - 1)) ->
+  res_opt (infer (RStr s) passed false)
+  = res_opt (infer (RInt (if neg then - num else num)) (Some w) false).
+Proof. exact verilog_str_agrees. Qed.
+Print Assumptions C16_verilog_str_agrees_partial.
+
+Theorem C16_verilog_str_width_mismatch_rejected : forall s neg num w p,
+  verilog_parse s = Ok (neg, w, num) -> p <> 0 -> p <> w ->
+  is_ok (infer (RStr s) (Some p) false) = false.
+Proof. exact verilog_str_width_mismatch. Qed.
+Print Assumptions C16_verilog_str_width_mismatch_rejected.
+
+Theorem C16_verilog_str_signed_rejected : forall s passed,
+  is_ok (infer (RStr s) passed true) = false.
+Proof. exact verilog_str_signed_rejected. Qed.
+Print Assumptions C16_verilog_str_signed_rejected.
+
+(* --- val_to_signed_integer inverts the signed encoding --- *)
+Theorem C16_val_to_signed_inverts : forall v w, representable v w true ->
+  val_to_signed_integer (v mod 2 ^ w) w = Ok v.
+Proof. exact val_to_signed_inverts. Qed.
+Print Assumptions C16_val_to_signed_inverts.
+
+Theorem C16_val_to_signed_value : forall u w, 1 <= w -> 0 <= u < 2 ^ w ->
+  val_to_signed_integer u w = Ok (signed_value u w).
+Proof. exact val_to_signed_value. Qed.
+Print Assumptions C16_val_to_signed_value.
+
+(* --- libutils two's-complement helpers: domain, encoding, mutual inverses --- *)
+Theorem C16_twos_comp_accepts_iff : forall v w,
+  (exists r, twos_comp_repr v w = Ok r) <-> (1 <= w /\ - 2 ^ (w - 1) < v < 2 ^ (w - 1)).
+Proof. exact twos_accepts_iff. Qed.
+Print Assumptions C16_twos_comp_accepts_iff.
+
+Theorem C16_twos_comp_encoding : forall v w r, twos_comp_repr v w = Ok r -> r = v mod 2 ^ w.
+Proof. exact twos_encoding. Qed.
+Print Assumptions C16_twos_comp_encoding.
+
+Theorem C16_twos_then_rev : forall v w r,
+  twos_comp_repr v w = Ok r -> rev_twos_comp_repr r w = Ok v.
+Proof. exact twos_then_rev. Qed.
+Print Assumptions C16_twos_then_rev.
+
+Theorem C16_rev_then_twos : forall r w v, 1 <= w -> 0 <= r ->
+  rev_twos_comp_repr r w = Ok v -> twos_comp_repr v w = Ok r.
+Proof. exact rev_then_twos. Qed.
+Print Assumptions C16_rev_then_twos.
+
+(* --- non-vacuity --- *)
+Example C16_example_infer :
+  infer (RInt (-3)) None true = Ok (5, 3) /\ infer (RInt (-8)) (Some 4) false = Ok (8, 4)
+  /\ infer (RInt 8) (Some 4) true = Err 1 /\ representable (-8) 4 true /\ ~ representable 8 4 true.
+Proof. vm_compute. repeat split; try reflexivity; try (intro; discriminate). intros [_ [_ H]]. discriminate. Qed.
+
+Example C16_example_verilog :
+  verilog_parse [45; 52; 39; 100; 55] = Ok (true, 4, 7) /\
+  infer (RStr [45; 52; 39; 100; 55]) None false = Ok (9, 4) /\ infer (RInt (-7)) (Some 4) false = Ok (9, 4).
+Proof. vm_compute. repeat split; reflexivity. Qed.
+
+Example C16_example_twos :
+  twos_comp_repr (-3) 3 = Ok 5 /\ rev_twos_comp_repr 5 3 = Ok (-3) /\ val_to_signed_integer 5 3 = Ok (-3).
+Proof. vm_compute. repeat split; reflexivity. Qed.
